@@ -8,7 +8,7 @@ import re, sys, json, os
 
 KINDS = [('unwrap', r'\.unwrap\(\)'), ('expect', r'\.expect\('), ('panic', r'\b(?:panic|unreachable|todo|unimplemented)!\('),
          ('assert', r'\bassert(?:_eq|_ne)?!\('), ('from_raw', r'\bfrom_raw\('), ('unquote', r'\.unquote\(\)'),
-         ('to_str_helper', r'\.to_str\(\)(?!\s*\.)'), ('index', r'\w\[[^\]\n]*\](?!\s*=[^=])')]
+         ('to_str_helper', r'\.to_str\(\)(?!\s*\.)'), ('boundary', r'\.(?:truncate|split_at|split_off|drain|replace_range|swap_remove|copy_from_slice|step_by|chunks|windows)\('), ('index', r'\w\[[^\]\n]*\](?!\s*=[^=])')]
 
 
 def strip_tests(s):
